@@ -418,7 +418,8 @@ func (b *c14base) runCase(c dmgCase, work string, tw *TraceWriter) {
 			continue
 		}
 		emit("dread", map[string]any{"q": q.Name, "expected": b.expected[qi], "r": r, "touches": touches, "other": other,
-			"alloc": int64(alloc), "fileBytes": b.total})
+			"alloc": int64(alloc), "fileBytes": b.total,
+			"zerohead": c.Kind == "zerotail" && c.Pos == 0 && b.segs[c.Seg].Base == 0})
 	}
 	func() {
 		defer func() { recover() }()
@@ -444,7 +445,7 @@ func c14Worker(args []string) int {
 		fmt.Fprintln(os.Stderr, "c14 base:", err)
 		return 2
 	}
-	tw, err := NewTraceWriter(out, nil)
+	tw, err := NewTraceWriter(out, openKF("C14"))
 	if err != nil {
 		fmt.Fprintln(os.Stderr, err)
 		return 2
@@ -501,7 +502,7 @@ func runC14(r *SeqRun) {
 				lines, _ := readLines(out)
 				empty := dresult{Msgs: []MM{}}
 				crash, _ := json.Marshal(map[string]any{"ev": "dread", "hid": id, "what": "CRASH of the process in case " + what, "q": "?", "expected": empty,
-					"r": dresult{Err: "Panic", Msgs: []MM{}}, "touches": false, "other": false, "alloc": 0, "fileBytes": 0, "crash": tail(string(ob), 12)})
+					"r": dresult{Err: "Panic", Msgs: []MM{}}, "touches": false, "other": false, "alloc": 0, "fileBytes": 0, "zerohead": false, "crash": tail(string(ob), 12)})
 				lines = append(lines, string(crash))
 				writeLines(out, lines)
 			}
@@ -538,7 +539,7 @@ func replayC14(r *SeqRun, id int, tier string, seed int64, dir string) (string, 
 		lines, _ := readLines(out)
 		empty := dresult{Msgs: []MM{}}
 		crash, _ := json.Marshal(map[string]any{"ev": "dread", "hid": id, "what": "CRASH", "q": "?", "expected": empty,
-			"r": dresult{Err: "Panic", Msgs: []MM{}}, "touches": false, "other": false, "alloc": 0, "fileBytes": 0, "crash": tail(string(ob), 12)})
+			"r": dresult{Err: "Panic", Msgs: []MM{}}, "touches": false, "other": false, "alloc": 0, "fileBytes": 0, "zerohead": false, "crash": tail(string(ob), 12)})
 		writeLines(out, append(lines, string(crash)))
 	}
 	return out, nil
